@@ -500,3 +500,127 @@ Lemma src_update_is_modelled :
   src_update = "logistic_map(XY[i-1,:],r)-sigma*np.dot(L,logistic_map(XY[i-1,:],r)).T".
 Proof. split; reflexivity. Qed.
 """
+
+
+# ---------------------------------------------------------------------------
+# conditional_mutual_information.py: dispatcher route table  ->  Dispatch.route
+# ---------------------------------------------------------------------------
+SETTINGS = ["k", "metric", "bandwidth", "kernel"]
+CMI_FILE = "causationentropy/core/information/conditional_mutual_information.py"
+MI_FILE = "causationentropy/core/information/mutual_information.py"
+
+
+def _identity_kwargs(call, anchor):
+    """settings forwarded unchanged by a call: keyword `s=s` for s in SETTINGS (anything else is reported)"""
+    fw = []
+    for kw in call.keywords:
+        if kw.arg in SETTINGS:
+            if is_name(kw.value, kw.arg):
+                fw.append(kw.arg)
+            else:
+                fw.append(f"{kw.arg}:={src(kw.value)}")
+        elif kw.arg is not None:
+            raise Unavailable(f"{anchor}: unexpected keyword {kw.arg}")
+    return fw
+
+
+def route_facts():
+    tree = parse(CMI_FILE)
+    mi_tree = parse(MI_FILE)
+    disp = func(tree, "conditional_mutual_information")
+    chain = one((n for n in disp.body if isinstance(n, ast.If) and "method" in src(n.test)), "dispatcher if-chain")
+    routes, names_seen = [], []
+    node = chain
+    while True:
+        t = node.test
+        tests = t.values if isinstance(t, ast.BoolOp) and isinstance(t.op, ast.Or) else [t]
+        names = []
+        for c in tests:
+            if not (isinstance(c, ast.Compare) and is_name(c.left, "method") and len(c.ops) == 1 and isinstance(c.ops[0], ast.Eq)
+                    and isinstance(c.comparators[0], ast.Constant) and isinstance(c.comparators[0].value, str)):
+                raise Unavailable(f"dispatcher test `{src(c)}`")
+            names.append(c.comparators[0].value)
+        if not (len(node.body) == 1 and isinstance(node.body[0], ast.Assign) and is_name(node.body[0].targets[0], "cmi")
+                and isinstance(node.body[0].value, ast.Call)):
+            raise Unavailable("dispatcher branch body")
+        call = node.body[0].value
+        if [src(a) for a in call.args] != ["X", "Y", "Z"]:
+            raise Unavailable(f"dispatcher positional arguments {[src(a) for a in call.args]}")
+        callee = src(call.func)
+        fw = _identity_kwargs(call, "dispatcher->" + callee)
+        for nm in names:
+            routes.append({"name": nm, "z": True, "callee": callee, "forwards": fw})
+            names_seen.append(nm)
+        # the Z-is-None head of the callee
+        cf = func(tree, callee)
+        head = cf.body[1] if isinstance(cf.body[0], ast.Expr) else cf.body[0]
+        if not (isinstance(head, ast.If) and src(head.test).replace(" ", "") == "ZisNone"):
+            raise Unavailable(f"{callee}: no `if Z is None` head")
+        inner_calls = [n for n in ast.walk(ast.Module(body=head.body, type_ignores=[]))
+                       if isinstance(n, ast.Call) and isinstance(n.func, ast.Name) and n.func.id.endswith("mutual_information")]
+        if len(inner_calls) == 1 and len(head.body) == 1:
+            ic = inner_calls[0]
+            if [src(a) for a in ic.args] != ["X", "Y"]:
+                raise Unavailable(f"{callee}: Z-None call arguments")
+            fw2 = [s for s in _identity_kwargs(ic, callee + "->" + ic.func.id) if s in fw]
+            for nm in names:
+                routes.append({"name": nm, "z": False, "callee": ic.func.id, "forwards": fw2})
+        elif not inner_calls:          # estimator handles Z=None itself
+            for nm in names:
+                routes.append({"name": nm, "z": False, "callee": callee, "forwards": fw})
+        else:
+            raise Unavailable(f"{callee}: Z-None head shape")
+        if len(node.orelse) == 1 and isinstance(node.orelse[0], ast.If):
+            node = node.orelse[0]
+        else:
+            tail = node.orelse
+            break
+    raises = [n for n in ast.walk(ast.Module(body=tail, type_ignores=[])) if isinstance(n, ast.Raise)]
+    if len(raises) != 1 or not src(raises[0].exc).startswith("ValueError("):
+        raise Unavailable("dispatcher else branch does not raise ValueError")
+    # the floor
+    s = _stmts(disp)
+    if "returnmax(0.0,cmi)" not in s or "returncmi" not in s:
+        raise Unavailable("dispatcher floor statements")
+    fl = one((n for n in disp.body if isinstance(n, ast.If) and src(n.test).replace(" ", "") == "np.isfinite(cmi)"), "floor guard")
+    # accepted settings per callee, from the signatures
+    accepts = {}
+    for r in routes:
+        c = r["callee"]
+        if c not in accepts:
+            try:
+                fd = func(tree, c)
+            except Unavailable:
+                fd = func(mi_tree, c)
+            accepts[c] = [a.arg for a in fd.args.args if a.arg in SETTINGS]
+    return {"routes": routes, "accepts": accepts}
+
+
+def coq_route_facts(f):
+    ql = lambda xs: "[" + "; ".join('"%s"' % x for x in xs) + "]"
+    rs = ";\n    ".join('{| r_name := "%s"; r_zpresent := %s; r_callee := "%s"; r_forwards := %s |}'
+                         % (r["name"], "true" if r["z"] else "false", r["callee"], ql(r["forwards"])) for r in f["routes"])
+    acc = ";\n    ".join('("%s", %s)' % (c, ql(a)) for c, a in f["accepts"].items())
+    return f"""From Coq Require Import String List Bool.
+From CE Require Import Model.Dispatch.
+Import ListNotations.
+Open Scope string_scope.
+Definition src_routes : list route :=
+   [{rs}].
+Definition src_accepts : list (string * list string) :=
+   [{acc}].
+Definition set_eqb (a b : list string) : bool := forallb (fun x => mem x b) a && forallb (fun x => mem x a) b.
+(* what each callee accepts, as the signatures say now, is what the model assumes *)
+Lemma src_accepts_is_modelled : forallb (fun ca => set_eqb (snd ca) (accepts (fst ca))) src_accepts = true.
+Proof. vm_compute. reflexivity. Qed.
+(* every route forwards every setting its callee accepts -- except the known finding K1 *)
+Lemma src_routes_forward_all_but_K1 : forallb (fun r => forwards_all r || is_K1 r) src_routes = true.
+Proof. vm_compute. reflexivity. Qed.
+(* every supported name has a route with and without a conditioning set; 'kde' and 'kernel_density' coincide *)
+Lemma src_routes_cover_names : forallb (fun n => match lookup_route src_routes n true, lookup_route src_routes n false with
+                                                   | Some _, Some _ => true | _, _ => false end) names = true.
+Proof. vm_compute. reflexivity. Qed.
+Lemma src_kde_alias : forallb (fun z => match lookup_route src_routes "kde" z, lookup_route src_routes "kernel_density" z with
+    | Some a, Some b => String.eqb (r_callee a) (r_callee b) && set_eqb (r_forwards a) (r_forwards b) | _, _ => false end) [true; false] = true.
+Proof. vm_compute. reflexivity. Qed.
+"""
